@@ -34,7 +34,7 @@ def children(n):
     return out
 
 
-def walk(n):
+def walk(n, into_lambda=True):
     """Pre-order walk over all nodes below (and including) n."""
     stack = [n]
     while stack:
@@ -42,6 +42,8 @@ def walk(n):
         if not isinstance(x, dict) or "k" not in x:
             continue
         yield x
+        if x.get("k") == "lambda" and not into_lambda:
+            continue
         stack.extend(reversed(children(x)))
 
 
@@ -234,6 +236,13 @@ class Function:
         for r in self.roots():
             for n in walk(r):
                 yield n
+
+    def returns(self):
+        """Return statements of the function itself (not of nested lambdas)."""
+        out = []
+        for r in self.roots():
+            out.extend(n for n in walk(r, into_lambda=False) if n.get("k") == "return")
+        return out
 
     def calls(self, *names):
         for n in self.nodes():
